@@ -203,6 +203,28 @@ def templated_rotation(conn, n, d, args, axis):
     return first, int(m), int(m2)
 
 
+def templated_rounds_register_measurement(conn, n, d, args, rounds):
+    """several pre-compiled rounds in a row, each measuring into a REGISTER (store_array=False), no ordinary flush in between;
+    afterwards one ordinary flush.  With ``args`` None the same rounds are flushed directly."""
+    out = []
+    for _ in range(rounds):
+        q = Qubit(conn)
+        q.rot_X(n=n, d=d)
+        m = q.measure(store_array=False)
+        if args is not None:
+            sub = conn.compile()
+            sub.instantiate(conn.app_id, args)
+            conn.commit_subroutine(sub)
+        else:
+            conn.flush()
+        out.append(int(m))
+    q2 = Qubit(conn)
+    m2 = q2.measure(store_array=False)
+    conn.flush()
+    out.append(int(m2))
+    return out
+
+
 def compile_then_queue_then_commit(conn, n, d, args):
     """operations queued between compile() and commit_subroutine() must survive (they belong to the next flush)"""
     q = Qubit(conn)
